@@ -168,6 +168,13 @@ def check_legacy_futures(rep, rid_d, rid_e, core):
             rep.missing(rid_d, 'legacy %s resolve closure' % mod)
             continue
         g = clo
+        # the closure lives inside the Request, which the shared state's send_request owns until the first poll: it may only hold a Weak
+        # reference to that state, or a future dropped before its first poll keeps itself (and everything it captured) alive for ever
+        strong = [u['name'] for u in g.upvars if re.match(r'^alloc::sync::Arc<std::sync::poison::mutex::Mutex<', u.get('ty') or '')]
+        weak = [u['name'] for u in g.upvars if (u.get('ty') or '').startswith('alloc::sync::Weak<')]
+        rep.expect(rid_d, bool(weak) and not strong, '%s|resolve-holds-weak' % mod, 'the resolve closure captures a Weak to the shared state',
+                   'legacy %s: the resolve closure holds a strong Arc to the future\'s shared state (%s): shared state -> send_request -> Request -> '
+                   'closure -> shared state is a cycle until the first poll, so a future dropped unpolled is never freed' % (mod, strong))
         regions = c03.lock_regions(g, ['std::sync::poison::mutex::Mutex::lock'])
         if mod == 'shell_request':
             delivers = [bb for bb, i, s in g.stmts('assign') if s['d']['p'] and s['d']['p'][-1] == '.result']
